@@ -61,6 +61,23 @@ def plan_for(prop, tier):
                 dict(kind="enumerate", name="k3-factory-yields-exhaustive", variant="asan", k=3, names=1, fy=True, template="k3f"),
                 dict(kind="enumerate", name="k3-two-names-exhaustive", variant="asan", k=3, names=2, fy=True),
             ] + ([] if q else [dict(kind="enumerate", name="k4-bounded", variant="gzero", k=4, names=2, fy=False, limit=2000000, shards=16)]))
+    if prop == "C14":
+        return dict(
+            variants=["asan", "tsan"], level="exploration", assumptions=ASSUME_COMMON + [
+                "the reference for every checked answer is a pristine twin: the same bytes loaded under a fresh name whose very first query is that one (memoised per zone and query within a worker process)",
+                "hint values are produced only by preceding public queries, never forged",
+                "'no data-source access' is judged by the counting SimFactory with the real-time rule: a factory call for a name is a violation only if some load of that name had already returned before the calling load was invoked"],
+            rule="part enum: for a panel of zones every reachable hint state (one per interval between consecutive transitions, stored no-ops and the generated 401-year extension included) is set by a "
+                 "lookup(tp)+lookup(cs) pair and followed by ~40 probes around that interval, its neighbours, both ends and the 400-year seam; part random: 60-600 (thorough 2000) mixed calls with locality, "
+                 "every 16th answer checked against a fresh twin and all of them against a twin asked in reverse order; part cacheB: load/query/catalogue-toggle scripts (absent<->present, corrupt<->healthy, eio<->ok) in 1-4 tasks; "
+                 "part hints: 2-4 tasks sharing one zone on the TSan build with yields at every hint access. Non-trivial iff at least one answer was checked (enum/random), a load followed a toggle or overlapped another (cacheB), "
+                 "or tasks interleaved (hints); distinct = distinct (zone, hint state) / history hashes",
+            stages=[
+                dict(kind="worker", name="enum-hint-states", variant="asan", part="enum", runs=-1, block=100, hash_mod=97, key_mod=1),
+                dict(kind="worker", name="random-histories", variant="asan", part="random", runs=6000 if q else 150000, block=100, hash_mod=50, key_mod=1),
+                dict(kind="worker", name="cacheB", variant="asan", part="", runs=80000 if q else 2000000, block=1000, hash_mod=50, key_mod=1 if q else 16),
+                dict(kind="worker", name="hints-multitask-tsan", variant="tsan", part="hints", runs=60000 if q else 1500000, block=1000, hash_mod=50, key_mod=1 if q else 16),
+            ])
     if prop == "C12":
         return dict(
             variants=["asan", "gzero", "gpat"], level="fault_enumeration", assumptions=ASSUME_COMMON + [
